@@ -186,3 +186,29 @@ fn k_eu_identities_all_finite() {
     assert!(a * one == a && one * a == a);
     assert!(a * zero == zero && zero * a == zero);
 }
+
+fn big_int() -> f64 {
+    // every integer of magnitude <= 2^52 (exactly representable; sums of two of them are exact as well)
+    let x: i64 = kani::any();
+    kani::assume(x >= -4503599627370496 && x <= 4503599627370496);
+    x as f64
+}
+/// ring subtraction inverts addition on ALL integers up to 2^52 (every value involved is exactly representable): one harness per
+/// type, thorough tier only (minutes of CBMC time each)
+#[kani::proof]
+fn k_real_sub_inverts_add_exact_ints() {
+    let (a, b) = (RealSemiring(big_int()), RealSemiring(big_int()));
+    assert!((a + b) - b == a && (a - b) + b == a);
+}
+#[kani::proof]
+fn k_eu_sub_inverts_add_exact_ints() {
+    let (c, d) = (ExpectedUtility(big_int(), big_int()), ExpectedUtility(big_int(), big_int()));
+    assert!((c + d) - d == c && (c - d) + d == c);
+}
+#[kani::proof]
+fn k_complex_sub_inverts_add_exact_ints() {
+    use rsdd::util::semirings::Complex;
+    let (e, g) = (Complex { re: big_int(), im: big_int() }, Complex { re: big_int(), im: big_int() });
+    let (r, s) = ((e + g) - g, (e - g) + g);
+    assert!(r.re == e.re && r.im == e.im && s.re == e.re && s.im == e.im);
+}
